@@ -92,6 +92,20 @@ def rule_r1(p, res):
                     continue
                 break
             else:
+                # an entry that is a local with several definitions, one of them a constant: on that path the entry no longer
+                # depends on the angle, so the sign (or size) of the rotation is lost for the angles that take it
+                multi = []
+                for row in m.elts:
+                    for e in row.elts:
+                        for x in ast.walk(e):
+                            if isinstance(x, ast.Name) and len(defs.of(x.id)) > 1:
+                                vals = [v for kd, v, st in defs.of(x.id) if kd == "assign" and isinstance(v, ast.AST)]
+                                if any(isinstance(v, ast.Constant) or (isinstance(v, ast.UnaryOp) and isinstance(v.operand, ast.Constant)) for v in vals):
+                                    multi.append(x.id)
+                if multi:
+                    r.violation(f, rets[0], "%s fills the matrix from `%s`, which on one path is replaced by a constant: for the angles that take that path the entry no longer follows the "
+                                "sine / cosine of the angle (a snapped quarter turn loses the sign of the sine)" % (f.short, sorted(set(multi))[0]))
+                    continue
                 raise AnalysisError("C20.R1: unrecognised entry in the matrix literal of %s: %s" % (f.short, norm(m)[:100]))
             continue
             raise AnalysisError("C20.R1: unrecognised entry in the matrix literal of %s: %s" % (f.short, norm(m)[:100]))
@@ -519,6 +533,19 @@ def rule_r6(p, res):
     q = p.own_method("Rotation", "init_3d_from_quaternion")
     r.instance(q)
     r.check("r = cls.init_identity(n_dims=3)" in norm(q.node) and "return r.from_vector(%s)" % q.params[1] in norm(q.node), q, q.node, "init_3d_from_quaternion = identity.from_vector(q)")
+    qn = q.params[1]
+    touched = [n for n in walk_own(q.node) if isinstance(n, (ast.Assign, ast.AugAssign)) and any(
+        (isinstance(t, ast.Name) and t.id == qn) or (isinstance(t, ast.Subscript) and isinstance(t.value, ast.Name) and t.value.id == qn)
+        for t in (n.targets if isinstance(n, ast.Assign) else [n.target]))]
+    r.check(not touched, q, touched[0] if touched else q.node, "init_3d_from_quaternion must hand the quaternion to from_vector as given: q and -q are the same rotation only when *all four* "
+            "components change sign, any other edit (`%s`) builds a different rotation" % (norm(touched[0])[:60] if touched else ""))
+    ax = p.own_method("Rotation", "_axis_and_angle_of_rotation_3d")
+    r.instance(ax)
+    helpers = [n for n in walk_own(ax.node) if isinstance(n, ast.Assign) and isinstance(n.value, ast.BinOp) and isinstance(n.value.op, ast.Sub) and norm(n.value.left) == "axis"]
+    need(len(helpers) == 1, "C20.R6: the helper vector of _axis_and_angle_of_rotation_3d (axis - <something>) was not found")
+    rhs = helpers[0].value.right
+    r.check(isinstance(rhs, ast.Call) and (dotted(rhs.func) or "").startswith("np.random."), ax, helpers[0], "the helper vector used to find a direction orthogonal to the axis must be generic "
+            "(random): a fixed vector (`%s`) is parallel to the axis for rotations about that direction, the cross product vanishes and the angle is NaN" % norm(rhs)[:50])
 
 
 RULES = [rule_r1, rule_r2, rule_r3, rule_r4, rule_r5, rule_r6]
@@ -569,4 +596,9 @@ WITNESSES += [
 
 WITNESSES += [
     Witness("C20.W16", "menpo/transform/homogeneous/rotation.py", "Rotation.init_from_2d_ccw_angle", "    if degrees:", "    theta = theta % 360\n    if degrees:", rule="C20.R1", construct="init_from_2d_ccw_angle", note="seeded change R4-C20-A"),
+]
+
+WITNESSES += [
+    Witness("C20.W17", "menpo/transform/homogeneous/rotation.py", "Rotation._axis_and_angle_of_rotation_3d", "axis - np.random.rand(axis.size)", "axis - np.array([0.0, 0.0, 1.0])", rule="C20.R6",
+            construct="_axis_and_angle_of_rotation_3d", note="seeded change R5-C20-B"),
 ]
